@@ -32,7 +32,9 @@ CLAIMED = {
              "hypotheses the `locks` driver checks on every recorded transaction). Deciding tie: every concurrent history (shared names, cross-directory renames over targets, shared-file "
              "writes/truncates/reads, listings during updates, injected yields, shrinker active) is replayed in observed commit order on the sequential reference model and every reply must match. "
              "What a lock protects is fetched under the lock: the call order of Acquire / LookupSlot / Release regenerated from package fstxn is checked (slots_are_fetched_under_the_lock), and under that "
-             "discipline no transaction ever obtains a cache slot with another transaction's uncommitted changes, whatever is evicted when (model of locks and slots together).",
+             "discipline no transaction ever obtains a cache slot with another transaction's uncommitted changes, whatever is evicted when (model of locks and slots together). "
+             "Locks are given back only after the flush (unstable WRITEs aside): under that discipline — checked on every recorded transaction — what another transaction reads under the lock is what a crash "
+             "at that moment recovers, for every interleaving (model M11 of the log's durable and pending parts, commits, logger and locks).",
         design_ref="DESIGN.md 5/C03", note="trusted: Lean kernel, reference model, fstxn hooks and harness; schedules of the real runtime are sampled, not quantified over",
         technique="Lean 4 proof (2PL => commit-order serialization) + commit-order replay of observed concurrent histories on the reference model"),
     "C04": dict(category="proof",
@@ -59,7 +61,7 @@ CLAIMED = {
     "C08": dict(category="proof",
         text="Lean theorems on the reference model: generations are monotone and bump at every allocation/free, a dead handle stays dead after ANY history (stale_forever), every "
              "procedure and handle position refuses a dead handle, created handles are fresh; correspondence with a stale-handle bank, forced inode-number reuse and an "
-             "implementation-side oracle (no OK for a dead handle, no handle issued twice).",
+             "implementation-side oracle (no OK for a dead handle, no handle issued twice); a handle given to ANOTHER client survives a crash (M11 + crash right after every reply that reveals a name).",
         design_ref="DESIGN.md 5/C08", note="trusted: Lean kernel, reference model, harness; inode-number reuse forced by moving the allocator's roving pointer",
         technique="Lean 4 proof (invariant over histories) + correspondence"),
     "C09": dict(category="proof",
@@ -94,7 +96,7 @@ CLAIMED = {
     "C17": dict(category="proof",
         text="Lean theorems on a transliteration of simple/ops.go + inode.go: WRITE/READ/SETATTR refine the specification 'a fixed set of files, each a byte string of at most 4096 bytes' "
              "(acceptance conditions exact for all 64-bit offsets and counts, content equations, end-of-file flag, zero fill, no exposure after shrink), invalid inodes refused, "
-             "invariant preserved, per-file objects disjoint; correspondence on all procedures with exact status codes; concurrent rounds on one inode must be explained by some order applied by the model; crash images (prefix-state oracle, recovered by simple.Recover) with the C01 WAL theorems (PARTIAL: schedules and crash points sampled).",
+             "invariant preserved, per-file objects disjoint; every handler holds the inode's lock across its body's waiting commit (regenerated table), hence replies reveal only durable state (M11); correspondence on all procedures with exact status codes; concurrent rounds on one inode must be explained by some order applied by the model; crash images (prefix-state oracle, recovered by simple.Recover) with the C01 WAL theorems (PARTIAL: schedules and crash points sampled).",
         design_ref="DESIGN.md 5/C17", note="trusted: Lean kernel, hand-written transliteration (validated by correspondence), harness",
         technique="Lean 4 refinement proof + correspondence"),
     "C18": dict(category="proof",
@@ -110,7 +112,7 @@ CLAIMED = {
     "C14": dict(category="proof",
         text="PARTIAL by nature. Lean theorems: lockset discipline implies a release->acquire edge between conflicting accesses; for the control skeleton of every function of nfs/, dir/, "
              "shrinker/ (REGENERATED from the source on every run, 860 statements classified) no path uses an inode variable after the commit/abort that released its lock — path-sensitive "
-             "abstract execution decided by the kernel over the regenerated table. Recorded lock events of concurrent runs validated; thorough tier: Go race detector as search.",
+             "abstract execution decided by the kernel over the regenerated table; struct mutexes guard their fields on every path; fields synchronised by sync/atomic are touched atomically or in function-private copies only (table by go/types over the whole module). Recorded lock events of concurrent runs validated; thorough tier: Go race detector as search.",
         design_ref="DESIGN.md 5/C14", note="trusted: Lean kernel, the go/ast skeleton extractor, fstxn hooks; outside: Go memory model, go-journal internals, non-inode shared state (own mutexes/atomics)",
         technique="Lean 4 proof over regenerated control skeletons + lock-trace validation (+ race detector as search)"),
     "C15": dict(
@@ -118,7 +120,8 @@ CLAIMED = {
         text="Lean 4 theorems (for every disk size, no bound) about the layout arithmetic REGENERATED from super/super.go and "
              "the markAlloc guard of nfs/nfs.go: regions consecutive/disjoint/inside the disk, bitmaps cover every block and inode, "
              "inode slots disjoint and inside the table, no uint64 overflow; the format and allocator models are hand-written and tied to "
-             "the code by correspondence on every size of a dense range (quick: 745 sizes; thorough: every size 1400..140000).",
+             "the code by correspondence on every size of a dense range (quick: 745 sizes; thorough: every size 1400..40000 and around eight bitmap-block boundaries), "
+             "including use-and-free of real files at the ends of the data region and on both sides of every bitmap-block boundary.",
         design_ref="DESIGN.md 5/C15",
         note="trusted: Lean kernel, the go/ast translator for super.go, the mkfs/alloc correspondence harness; go-journal's alloc.Alloc is modelled (tied by op-sequence correspondence), not verified",
         technique="Lean 4 proof over regenerated definitions + model/implementation correspondence",
